@@ -75,6 +75,106 @@ def spec_stage(chk, name, module, consts, view, emit, invariants, properties, ex
         shutil.rmtree(wd, ignore_errors=True)
 
 
+LATE = {"lset", "ldel", "lget", "lkeys", "lcommit", "lrollback"}
+
+
+def trace_owner(events, i, why):
+    """Which property owns the first event the promise cannot explain (same rule as the replay harness)."""
+    prefix = events[:i + 1]
+    if why and why[0] == "files":
+        return "C14"
+    if any(e["op"] == "reopen" for e in prefix):
+        return "C05"
+    op = events[i]["op"]
+    if op in LATE:
+        return "C13"
+    if op == "gc":
+        return "C09"
+    if op in ("commit", "rollback"):
+        if why and why[0] == "result":
+            return "C03"
+        reader = why[why.index("reader") + 1] if "reader" in why else 0
+        return "C03" if reader == 0 else "C02"
+    return "C02" if any(e["op"] == "begin" for e in prefix) else "C01"
+
+
+def trace_stage(chk, name, module, consts, specs, fixed_owner=None, batch=40):
+    """Direction B: record executions of the real code with cmd/rnd, let TLC validate them against `module`.
+    A rejected trace is a disagreement with the promise; it is attributed by the ownership rule, after blame by
+    ablation (the same seeded history recorded again without the collector / without late operations)."""
+    wd = vlib.scratch("tr")
+    try:
+        paths, failed = vlib.record_traces(specs, wd)
+        for i, rc, err in failed:
+            # the driver died: the real code panicked or hung under this history
+            chk.violation("the real code died while recording the history of seed %s: rc=%s %s" % (specs[i].get("seed"), rc, err[-600:]), {"rnd": specs[i]})
+        ok_paths = [(i, p) for i, p in enumerate(paths) if i not in {f[0] for f in failed} and os.path.exists(p)]
+        n_events = 0
+        n_ok = 0
+        todo = list(ok_paths)
+        while todo:
+            cur, todo = todo[:batch], todo[batch:]
+            sub = vlib.scratch("tv")
+            try:
+                r, rej = vlib.validate_traces(module, consts, [p for _, p in cur], sub)
+                chk.states += r.distinct
+                chk.transitions += r.generated
+                if rej is None:
+                    n_ok += len(cur)
+                    n_events += r.distinct - 1
+                    continue
+                ti, ei, why = rej
+                si, path = cur[ti]
+                n_ok += ti
+                events = [json.loads(l) for l in open(path) if l.strip()]
+                owner = fixed_owner or trace_owner(events, ei, why)
+                ablated = None
+                if not fixed_owner:
+                    prefix_ops = {e["op"] for e in events[:ei + 1]}
+                    for skip, own in ((["gc"], "C09"), (["gc", "late"], "C13")):
+                        if (skip[-1] == "gc" and "gc" in prefix_ops) or (skip[-1] == "late" and prefix_ops & LATE):
+                            sp = dict(specs[si], skip=",".join(skip), steps=events[ei]["n"] + 1)
+                            sub2 = vlib.scratch("ab")
+                            try:
+                                p2, f2 = vlib.record_traces([sp], sub2)
+                                if not f2:
+                                    _, rej2 = vlib.validate_traces(module, consts, p2, sub2)
+                                    if rej2 is None:
+                                        owner, ablated = own, "+".join(skip)
+                                        break
+                            finally:
+                                shutil.rmtree(sub2, ignore_errors=True)
+                desc = "recorded execution (seed %s, event %d: %s) is not a behaviour of the promise: %s" % (
+                    specs[si].get("seed"), ei, events[ei]["op"], " ".join(str(x) for x in why))
+                if owner == chk.prop:
+                    chk.violation(desc, {"rnd": specs[si], "event_index": ei, "reason": why, "ablated": ablated,
+                                         "events": [{k: v for k, v in e.items() if k not in ("obs", "keys", "fs")} for e in events[max(0, ei - 30):ei + 1]]})
+                else:
+                    chk.out_of_scope[owner] = chk.out_of_scope.get(owner, 0) + 1
+                # the traces after the rejected one have not been looked at yet
+                todo = cur[ti + 1:] + todo
+            finally:
+                shutil.rmtree(sub, ignore_errors=True)
+        chk.traces += len(ok_paths)
+        chk.stages.append({"stage": name + ":traces", "module": module, "traces_recorded": len(paths), "traces_accepted": n_ok,
+                           "events_validated": n_events, "driver": {k: v for k, v in specs[0].items() if k != "seed"} if specs else {}})
+        if ok_paths and len(chk.samples) < 4:
+            ev = [json.loads(l) for l in open(ok_paths[0][1])][:8]
+            chk.samples.append({"stage": name, "trace_prefix": [{k: v for k, v in e.items() if k not in ("keys", "fs")} for e in ev]})
+    finally:
+        shutil.rmtree(wd, ignore_errors=True)
+
+
+def keyset(n):
+    return {"k%d" % i for i in range(1, n + 1)}
+
+
+def l0_traces(chk, name, n, steps, keys, maxtx, ops, levels="RU,RC,RR,SER", mode="inline", big=False):
+    specs = [dict(seed=vlib.seed() * 100003 + i, steps=steps, keys=keys, maxtx=maxtx, ops=ops, levels=levels, mode=mode,
+                  big=("true" if big and i % 4 == 0 else "false")) for i in range(n)]
+    trace_stage(chk, name, "L0Trace.tla", dict(Keys=keyset(keys), AllowedDev=set(allowed_dev())), specs)
+
+
 def has(*ops):
     s = set(ops)
     return lambda steps: any(st["op"] in s for st in steps)
@@ -94,6 +194,7 @@ def c01(chk):
     l1_stage(chk, "auto_3keys", dict(Keys=K3, MaxTx=0, MaxSteps=4 if quick else 5, Levels={"RC"}, Ops=auto))
     l1_stage(chk, "auto_sim", dict(Keys=K3, MaxTx=0, MaxSteps=40, Levels={"RC"}, Ops=auto),
              simulate=60 if quick else 1500, depth=40)
+    l0_traces(chk, "auto_traces", 16 if quick else 240, 500, 12, 0, "set,del,emptyset", big=True)
     chk.assumptions += ["contents are sampled per length class (0,1,2047..100000 bytes), compared byte for byte",
                         "keys come from a fixed pool of valid UTF-8 keys (multi-byte, separators, prefixes, 300 bytes)"]
 
@@ -107,6 +208,8 @@ def c02(chk):
              keep=has("begin"), sample=3000 if quick else 60000)
     l1_stage(chk, "tx_sim", dict(Keys=K3, MaxTx=4, MaxSteps=40, Levels={"RU", "RC", "RR", "SER"}, Ops=TXOPS | {"gc"}),
              simulate=60 if quick else 2000, depth=40)
+    l0_traces(chk, "tx_traces", 16 if quick else 240, 500, 8, 6, "set,del,begin,commit,rollback")
+    l0_traces(chk, "tx_traces_few_keys", 16 if quick else 120, 400, 2, 5, "set,del,begin,commit,rollback")
     if not quick:
         l1_stage(chk, "tx_d6_sample", dict(base, MaxSteps=6), keep=has("begin"), sample=30000)
     chk.assumptions += ["Serializable is Repeatable Read, as the project documents",
@@ -122,6 +225,7 @@ def c03(chk):
              keep=ends, sample=4000 if quick else 80000)
     l1_stage(chk, "commit_sim", dict(Keys=K3, MaxTx=4, MaxSteps=40, Levels={"RU", "RC", "RR", "SER"}, Ops=TXOPS),
              simulate=60 if quick else 2000, depth=40)
+    l0_traces(chk, "commit_traces", 16 if quick else 240, 400, 3, 5, "set,del,begin,commit,rollback", levels="RC,RR,SER")
     if not quick:
         l1_stage(chk, "commit_2keys_d6", dict(Keys=K2, MaxTx=2, MaxSteps=6, Levels={"RC", "RR"}, Ops=TXOPS), keep=ends, sample=40000)
 
@@ -135,6 +239,7 @@ def c09(chk):
              keep=gc, sample=6000 if quick else 80000)
     l1_stage(chk, "gc_sim", dict(Keys=K2, MaxTx=4, MaxSteps=50, Levels={"RU", "RC", "RR", "SER"}, Ops=TXOPS | {"gc"}),
              simulate=60 if quick else 2000, depth=50)
+    l0_traces(chk, "gc_traces", 16 if quick else 240, 600, 3, 5, "set,del,begin,commit,rollback,gc")
 
 
 def c13(chk):
@@ -145,6 +250,7 @@ def c13(chk):
              keep=late, sample=6000 if quick else 80000)
     l1_stage(chk, "late_2keys_ru", dict(Keys=K2, MaxTx=2, MaxSteps=5, Levels={"RU", "SER"}, Ops=ops | {"del"}),
              keep=late, sample=4000 if quick else 60000)
+    l0_traces(chk, "late_traces", 16 if quick else 160, 300, 4, 4, "set,del,begin,commit,rollback,late")
     l1_stage(chk, "late_reopen", dict(Keys=K1, MaxTx=2, MaxSteps=6, Levels={"RU", "RC"}, Ops=ops | {"reopen"}),
              keep=lambda s: late(s) and has("reopen")(s), sample=2000 if quick else 30000)
 
@@ -159,6 +265,8 @@ def c14(chk):
              keep=lambda s: s[-1]["q"] and has("reopen")(s), sample=3000 if quick else 40000)
     l1_stage(chk, "disk_sim", dict(Keys=K3, MaxTx=3, MaxSteps=60, Levels={"RC", "RR"}, Ops=ops),
              simulate=60 if quick else 1500, depth=60, keep=quiet)
+    for nsteps in ((200, 600) if quick else (200, 600, 2000)):
+        l0_traces(chk, "disk_traces_%d" % nsteps, 8 if quick else 60, nsteps, 6, 2, "set,del,begin,commit,rollback,gc,reopen")
 
 
 def set_rule():
@@ -180,6 +288,7 @@ def c05(chk):
             ("procs_1inst_2keys", dict(Inst={"A"}, Keys=K2, MaxSteps=7 if quick else 9, MaxProcs=3, SetRule=rule), 300 if quick else 4000)):
         spec_stage(chk, nm, "Reopen.tla", consts, view="View", emit="Emit", invariants=("XLastWriteWins",),
                    properties=(), exe="procs", keep=has("close", "newproc"), sample=smp, chunk=40)
+    l0_traces(chk, "reopen_traces", 12 if quick else 120, 300, 5, 3, "set,del,begin,commit,rollback,gc,reopen")
     chk.assumptions += ["processes end with all instances closed cleanly (kills are C04's quantifier)"]
 
 
@@ -237,6 +346,340 @@ def c20(chk):
     chk.assumptions += ["settings interact only through error precedence and Valid, so all cases with at most %d settings away from 'absent' are enumerated" % (2 if quick else 3)]
 
 
+# ------------------------------------------------------------------ concurrency (C06, C07, C08)
+
+class Tags:
+    def __init__(self):
+        self.n = 0
+
+    def next(self):
+        self.n += 1
+        return self.n
+
+
+def O(op, t=0, k="", c=0, l=""):
+    return {"op": op, "t": t, "k": k, "c": c, "l": l}
+
+
+def programs_c07():
+    progs = []
+    for l1, l2 in (("RR", "RR"), ("RR", "SER"), ("SER", "SER")):
+        for ws1, ws2 in ((["k1"], ["k1"]), (["k1", "k2"], ["k1"]), (["k1", "k2"], ["k2", "k1"]), (["k1"], ["k1", "k2"])):
+            for early in (True, False):
+                for writer in (False, True):
+                    tg = Tags()
+                    setup = [O("set", 0, "k1", tg.next()), O("set", 0, "k2", tg.next())]
+                    a, b = [], []
+                    tgt1, tgt2 = (setup, setup) if early else (a, b)
+                    tgt1.append(O("begin", 1, l=l1))
+                    tgt2.append(O("begin", 2, l=l2))
+                    for k in ws1:
+                        tgt1.append(O("set", 1, k, tg.next()))
+                    for k in ws2:
+                        tgt2.append(O("set", 2, k, tg.next()))
+                    a.append(O("commit", 1))
+                    b.append(O("commit", 2))
+                    actors = [{"name": "A", "ops": a}, {"name": "B", "ops": b}]
+                    if writer:
+                        actors.append({"name": "W", "ops": [O("set", 0, "k1", tg.next())]})
+                    progs.append({"name": "c07_%s_%s_%s_%s_%s%s" % (l1, l2, "".join(ws1), "".join(ws2), "early" if early else "late", "_w" if writer else ""),
+                                  "family": "C07", "keys": ["k1", "k2"], "setup": setup, "actors": actors})
+    # three committers on one key
+    tg = Tags()
+    setup = [O("set", 0, "k1", tg.next())]
+    for t in (1, 2, 3):
+        setup += [O("begin", t, l="RR"), O("set", t, "k1", tg.next())]
+    progs.append({"name": "c07_three", "family": "C07", "keys": ["k1", "k2"], "setup": setup,
+                  "actors": [{"name": n, "ops": [O("commit", t)]} for n, t in (("A", 1), ("B", 2), ("C", 3))]})
+    return progs
+
+
+def programs_c08():
+    progs = []
+    for lr in ("RR", "SER"):
+        for cl in ("RC", "RR"):
+            for with_w in (False, True):
+                for with_gc in (False, True):
+                    for delete in (False, True):
+                        tg = Tags()
+                        setup = [O("set", 0, "k1", tg.next()), O("set", 0, "k2", tg.next()), O("begin", 1, l=cl),
+                                 O("set", 1, "k1", tg.next()), O("del", 1, "k2") if delete else O("set", 1, "k2", tg.next())]
+                        reader = [O("begin", 2, l=lr), O("get", 2, "k1"), O("get", 2, "k2"), O("get", 2, "k1"), O("get", 2, "k2"), O("keys", 2)]
+                        actors = [{"name": "C", "ops": [O("commit", 1)]}, {"name": "R", "ops": reader}]
+                        if with_w:
+                            actors.append({"name": "W", "ops": [O("set", 0, "k1", tg.next()), O("set", 0, "k2", tg.next())]})
+                        if with_gc:
+                            actors.append({"name": "G", "ops": [O("gc")]})
+                        progs.append({"name": "c08_%s_%s%s%s%s" % (lr, cl, "_w" if with_w else "", "_gc" if with_gc else "", "_del" if delete else ""),
+                                      "family": "C08", "keys": ["k1", "k2"], "setup": setup, "actors": actors})
+    # Begin racing with the collector: old versions exist, a snapshot begins while GC runs and an overwrite follows
+    for lr in ("RR", "SER"):
+        tg = Tags()
+        setup = [O("set", 0, "k1", tg.next()), O("set", 0, "k1", tg.next())]
+        progs.append({"name": "c08_begin_vs_gc_%s" % lr, "family": "C08", "keys": ["k1", "k2"], "setup": setup,
+                      "actors": [{"name": "R", "ops": [O("begin", 2, l=lr), O("get", 2, "k1"), O("get", 2, "k1"), O("keys", 2)]},
+                                 {"name": "W", "ops": [O("set", 0, "k1", tg.next())]},
+                                 {"name": "G", "ops": [O("gc")]}]})
+        # two snapshot readers of different ages
+        tg = Tags()
+        setup = [O("set", 0, "k1", tg.next()), O("begin", 1, l=lr), O("set", 0, "k1", tg.next())]
+        progs.append({"name": "c08_two_ages_%s" % lr, "family": "C08", "keys": ["k1", "k2"], "setup": setup,
+                      "actors": [{"name": "R1", "ops": [O("get", 1, "k1"), O("get", 1, "k1")]},
+                                 {"name": "R2", "ops": [O("begin", 2, l=lr), O("get", 2, "k1"), O("get", 2, "k1")]},
+                                 {"name": "W", "ops": [O("set", 0, "k1", tg.next())]},
+                                 {"name": "G", "ops": [O("gc")]}]})
+    return progs
+
+
+def programs_c06():
+    progs = []
+
+    def add(name, setup, actors):
+        progs.append({"name": "c06_" + name, "family": "C06", "keys": ["k1", "k2"], "setup": setup,
+                      "actors": [{"name": n, "ops": ops} for n, ops in actors]})
+    tg = Tags()
+    add("two_writers", [O("set", 0, "k1", tg.next())],
+        [("A", [O("set", 0, "k1", tg.next()), O("get", 0, "k1")]), ("B", [O("set", 0, "k1", tg.next()), O("get", 0, "k1")])])
+    tg = Tags()
+    add("writer_reader_gc", [O("set", 0, "k1", tg.next()), O("set", 0, "k1", tg.next())],
+        [("A", [O("set", 0, "k1", tg.next())]), ("B", [O("get", 0, "k1"), O("get", 0, "k1"), O("keys", 0)]), ("G", [O("gc")])])
+    tg = Tags()
+    add("reader_gc_only", [O("set", 0, "k1", tg.next()), O("set", 0, "k1", tg.next()), O("set", 0, "k2", tg.next())],
+        [("B", [O("get", 0, "k1"), O("keys", 0)]), ("G", [O("gc")])])
+    tg = Tags()
+    add("delete_set_keys", [O("set", 0, "k1", tg.next()), O("set", 0, "k2", tg.next())],
+        [("A", [O("del", 0, "k1")]), ("B", [O("set", 0, "k1", tg.next())]), ("C", [O("keys", 0), O("get", 0, "k1")])])
+    for lvl in ("RC", "RU"):
+        tg = Tags()
+        add("tx_commit_vs_reader_%s" % lvl, [O("set", 0, "k1", tg.next())],
+            [("A", [O("begin", 1, l=lvl), O("set", 1, "k1", tg.next()), O("set", 1, "k2", tg.next()), O("commit", 1)]),
+             ("B", [O("get", 0, "k1"), O("get", 0, "k2"), O("keys", 0)]), ("G", [O("gc")])])
+        tg = Tags()
+        add("tx_rollback_vs_ru_%s" % lvl, [O("set", 0, "k1", tg.next())],
+            [("A", [O("begin", 1, l=lvl), O("set", 1, "k1", tg.next()), O("rollback", 1)]),
+             ("B", [O("begin", 2, l="RU"), O("get", 2, "k1"), O("get", 2, "k1"), O("commit", 2)])])
+        tg = Tags()
+        add("two_tx_same_key_%s" % lvl, [O("set", 0, "k1", tg.next())],
+            [("A", [O("begin", 1, l=lvl), O("set", 1, "k1", tg.next()), O("get", 1, "k1"), O("commit", 1)]),
+             ("B", [O("begin", 2, l=lvl), O("set", 2, "k1", tg.next()), O("get", 2, "k1"), O("commit", 2)]),
+             ("C", [O("get", 0, "k1")])])
+        tg = Tags()
+        add("tx_overwrite_autocommit_%s" % lvl, [O("set", 0, "k1", tg.next()), O("begin", 1, l=lvl), O("set", 1, "k1", tg.next()), O("set", 1, "k1", tg.next())],
+            [("A", [O("commit", 1)]), ("B", [O("set", 0, "k1", tg.next()), O("get", 0, "k1")]), ("G", [O("gc")])])
+    tg = Tags()
+    add("four_clients", [O("set", 0, "k1", tg.next())],
+        [("A", [O("set", 0, "k1", tg.next())]), ("B", [O("del", 0, "k1")]), ("C", [O("get", 0, "k1")]), ("D", [O("keys", 0)])])
+    tg = Tags()
+    add("begin_commit_gc", [O("set", 0, "k1", tg.next()), O("set", 0, "k1", tg.next())],
+        [("A", [O("begin", 1, l="RC"), O("get", 1, "k1"), O("set", 1, "k1", tg.next()), O("commit", 1)]), ("G", [O("gc"), O("gc")])])
+    return progs
+
+
+def conc_check(chk, programs, dfs_runs, rnd_runs, preempt):
+    """Executes the programs under the controlled scheduler (all schedules up to the preemption bound, capped, plus
+    seeded random ones), then lets TLC decide whether every recorded history is linearizable w.r.t. the promise."""
+    execs = vlib.run_conc(programs, mode="dfs", runs=dfs_runs, preempt=preempt)
+    execs += vlib.run_conc(programs, mode="random", runs=rnd_runs)
+    by_outcome = {}
+    hist, meta = [], []
+    for e in execs:
+        by_outcome[e["outcome"]] = by_outcome.get(e["outcome"], 0) + 1
+        if e["outcome"] in ("deadlock", "panic", "crash"):
+            own = "C06"
+            desc = "%s of the real code in program %s: %s" % (e["outcome"], e.get("program"), (e.get("detail") or "")[:800])
+            if own == chk.prop:
+                chk.violation(desc, {"execution": {k: e.get(k) for k in ("program", "mode", "seed", "decisions", "gates", "detail")}})
+            else:
+                chk.out_of_scope[own] = chk.out_of_scope.get(own, 0) + 1
+            continue
+        if e["outcome"] != "ok":
+            raise Inconclusive("execution of %s ended as %s: %s" % (e.get("program"), e["outcome"], e.get("detail")))
+        hist.append(e["history"])
+        meta.append(e)
+    st, tr, rej = vlib.linearise(hist, dict(Keys={"k1", "k2"}, AllowedDev=set(allowed_dev())))
+    chk.states += st
+    chk.transitions += tr
+    chk.traces += len(hist)
+    levels = {}
+    n_known = {}
+    for hi, ei in rej:
+        e = meta[hi]
+        h = e["history"]
+        ev = h[ei]
+        calls = {x["id"]: x for x in h if x["e"] == "call"}
+        lv = {x["t"]: x["l"] for x in h if x["e"] == "call" and x["op"] == "begin"}
+        c = calls.get(ev.get("id"), ev)
+        snap = lv.get(c.get("t")) in ("RR", "SER")
+        if c.get("op") == "commit" and snap:
+            own = "C07"
+        elif c.get("op") in ("get", "keys", "begin") and snap:
+            own = "C08"
+        else:
+            own = "C06"
+        sig = known_schedule(e, own)
+        desc = "history of program %s (schedule %s) is not linearizable w.r.t. the promise at event %d: %s %s t=%s k=%s returned %s %s" % (
+            e["program"], e["mode"], ei, c.get("a"), c.get("op"), c.get("t"), c.get("k"), ev.get("res"), ev.get("vs") or ev.get("ks") or "")
+        if own != chk.prop:
+            chk.out_of_scope[own] = chk.out_of_scope.get(own, 0) + 1
+        elif sig:
+            chk.known[sig] = chk.known.get(sig, 0) + 1
+        else:
+            chk.violation(desc, {"program": e["program"], "history": h, "gates": e["gates"], "decisions": e["decisions"], "event": ei})
+    chk.stages.append({"stage": "concurrent_executions", "programs": len(programs), "executions": len(execs), "outcomes": by_outcome,
+                       "histories_linearised": len(hist), "rejected": len(rej), "preemption_bound": preempt})
+    if hist and len(chk.samples) < 3:
+        chk.samples.append({"program": meta[0]["program"], "history": meta[0]["history"][:24], "gates": meta[0]["gates"][:40]})
+
+
+def known_schedule(e, own):
+    """Recognises the recorded defects by the specific schedule that produces them (known_findings.json)."""
+    listed = {f["signature"] for f in vlib.known_findings().get("findings", []) if f.get("property") == own and f.get("schedule")}
+    gates = e.get("gates", [])
+    for sig in listed:
+        if SCHEDULE_SIGNATURES.get(sig, lambda g: False)(gates):
+            return sig
+    return None
+
+
+def _execs(gates):
+    """A gate entry records the ARRIVAL of an actor at a point: what the point guards executes when the actor is
+    released, i.e. just before its next arrival. Returns [(actor, point, arrival index, execution position)]."""
+    nxt = {}
+    out = []
+    for i in range(len(gates) - 1, -1, -1):
+        a, p = gates[i].split("@", 1)
+        out.append((a, p, i, nxt.get(a, len(gates)) - 0.5))
+        nxt[a] = i
+    out.reverse()
+    return out
+
+
+def _sig_begin_between_commit_draws(gates):
+    # H4: a snapshot Begin draws its number strictly between the first and the last publishing draw of a commit
+    ex = _execs(gates)
+    phase2 = {}
+    for a, p, i, x in ex:
+        if p == "utx.between":
+            phase2[a] = []
+        elif p == "seq.next" and a in phase2 and phase2[a] is not None:
+            phase2[a].append(x)
+        elif p == "utx.unlink" and a in phase2 and phase2[a] is not None:
+            phase2[a] = tuple(phase2[a])
+    draws = {a: list(v) for a, v in phase2.items() if v}
+    inbegin = set()
+    for a, p, i, x in ex:
+        if p == "begin.enter":
+            inbegin.add(a)
+        elif p == "seq.next" and a in inbegin:
+            inbegin.discard(a)
+            for b, d in draws.items():
+                if b != a and len(d) >= 2 and d[0] < x < d[-1]:
+                    return True
+    return False
+
+
+def _sig_begin_unregistered_during_gc(gates):
+    # H5: the collector read an empty registry and uses a fresh horizon, while a snapshot Begin that drew its number
+    # before that horizon registers only after the registry was read
+    ex = _execs(gates)
+    gcs = []
+    cur = {}
+    for a, p, i, x in ex:
+        if p == "reg.oldest":
+            cur[a] = {"read": x}
+        elif p == "seq.next" and a in cur and "draw" not in cur[a]:
+            cur[a]["draw"] = x
+        elif p == "gc.horizon" and a in cur:
+            if "draw" in cur[a]:
+                gcs.append((a, cur[a]["read"], cur[a]["draw"]))
+            del cur[a]
+    begins = []
+    st = {}
+    for a, p, i, x in ex:
+        if p == "begin.enter":
+            st[a] = {}
+        elif p == "seq.next" and a in st and "draw" not in st[a]:
+            st[a]["draw"] = x
+        elif p == "reg.store" and a in st:
+            begins.append((a, st[a].get("draw", x), x))
+            del st[a]
+    for g, read, gdraw in gcs:
+        for b, bdraw, breg in begins:
+            if b != g and bdraw < gdraw and breg > read:
+                return True
+    return False
+
+
+def _sig_get_overtaken_by_cleanup(gates):
+    # H6: between the version lookup of a read and the opening of its content, the collector or the cleaner
+    # deletes a content record or a content file
+    ex = _execs(gates)
+    windows = []
+    start = {}
+    for a, p, i, x in ex:
+        if p in ("core.get.lookup", "core.getFiles.lookup"):
+            start[a] = x                       # the (last) version lookup of the read
+        elif p == "get.afterLookup" and a in start:
+            windows.append((a, start[a], x))   # x: when the content record is looked up
+        elif p == "get.afterCf" and a in start:
+            windows.append((a, start.pop(a), x))   # x: when the content file is opened
+        elif p == "keys.afterLookup" and a in start:
+            windows.append((a, start.pop(a), x + 1000000))   # the record lookups of GetKeys follow this gate
+    dels = [(a, x) for a, p, i, x in ex if p in ("clean.beforeRemove", "clean.beforeCfDelete")]
+    for r, lo, hi in windows:
+        for a, x in dels:
+            if a != r and lo < x < hi:
+                return True
+    return False
+
+
+SCHEDULE_SIGNATURES = {
+    "begin-between-commit-draws": _sig_begin_between_commit_draws,
+    "begin-unregistered-during-gc": _sig_begin_unregistered_during_gc,
+    "get-overtaken-by-cleanup": _sig_get_overtaken_by_cleanup,
+}
+
+
+def c06(chk):
+    quick = chk.tier == "quick"
+    conc_check(chk, programs_c06(), 160 if quick else 1500, 16 if quick else 200, 2 if quick else 3)
+
+
+def c07(chk):
+    quick = chk.tier == "quick"
+    conc_check(chk, programs_c07(), 60 if quick else 800, 12 if quick else 150, 2 if quick else 3)
+
+
+def c08(chk):
+    quick = chk.tier == "quick"
+    conc_check(chk, programs_c08(), 60 if quick else 800, 12 if quick else 150, 2 if quick else 3)
+
+
+def c17(chk):
+    quick = chk.tier == "quick"
+    # design: every interleaving of write / delete / reopen with a limit of 2 (the code clamps the limit to >= 100)
+    wd = vlib.scratch("dirs")
+    try:
+        for roots, steps in (({1}, 9 if quick else 11), ({1, 2}, 7 if quick else 9)):
+            consts = dict(Roots=roots, Limit=2, MaxDirs=5, MaxSteps=steps)
+            cfg = os.path.join(wd, "dirs%d.cfg" % len(roots))
+            vlib.write_cfg(cfg, consts, init="DInit", next_="DNext", invariants=("Bounded", "EveryRootOffers", "ActiveKnown"), properties=("RoomIsReused",))
+            r = vlib.run_tlc("Dirs.tla", cfg, wd, timeout=1200)
+            chk.add_tlc("dirs_design_%droots" % len(roots), r, consts)
+            if r.violation:
+                raise Inconclusive("Dirs.tla violates its own properties: " + r.violation[:400])
+    finally:
+        shutil.rmtree(wd, ignore_errors=True)
+    # conformance: recorded walks of the roots validated against Dirs.tla with the real limit
+    for nroots in (1, 2, 3):
+        specs = [dict(seed=vlib.seed() * 7001 + i + 100 * nroots, steps=1200 if quick else 4000, keys=300 if i % 2 == 0 else 40, maxtx=2, roots=nroots,
+                      obs="false", ops="set,del,gc,reopen,begin,commit,rollback") for i in range(3 if quick else 16)]
+        trace_stage(chk, "walks_%droots" % nroots, "DirsTrace.tla",
+                    dict(Roots=set(range(1, nroots + 1)), Limit=100, MaxDirs=0, MaxSteps=0), specs, fixed_owner="C17")
+    chk.assumptions += ["the directory limit is 100, the smallest value Storage.Valid allows; the design-level check uses a limit of 2",
+                        "which offered directory receives a file is random in the code and is read from the recorded walk"]
+
+
 def c11(chk):
     quick = chk.tier == "quick"
     auto = {"set", "del", "emptyset"}
@@ -246,11 +689,12 @@ def c11(chk):
              mode="both", keep=has("begin"), sample=2500 if quick else 30000)
     l1_stage(chk, "ext_late_restart", dict(Keys=K1, MaxTx=2, MaxSteps=5, Levels={"RU", "RC", "RR"}, Ops={"set", "begin", "commit", "rollback", "late", "gc", "reopen"}),
              mode="both", keep=late, sample=1500 if quick else 20000)
+    l0_traces(chk, "ext_traces", 12 if quick else 120, 300, 6, 4, "set,del,begin,commit,rollback,gc,emptyset,late,reopen", mode="external", big=True)
     l1_stage(chk, "ext_sim", dict(Keys=K3, MaxTx=3, MaxSteps=30, Levels={"RU", "RC", "RR", "SER"}, Ops=TXOPS | {"emptyset", "gc"}),
              mode="both", simulate=40 if quick else 800, depth=30)
 
 
-PLANS = {"C18": c18, "C19": c19, "C20": c20, "C05": c05, "C11": c11, "C01": c01, "C02": c02, "C03": c03, "C09": c09, "C13": c13, "C14": c14}
+PLANS = {"C06": c06, "C07": c07, "C08": c08, "C17": c17, "C18": c18, "C19": c19, "C20": c20, "C05": c05, "C11": c11, "C01": c01, "C02": c02, "C03": c03, "C09": c09, "C13": c13, "C14": c14}
 
 
 def main():
